@@ -64,8 +64,41 @@ CAMPAIGN = Campaign()
 check_case = CAMPAIGN.check_case
 
 
+def python_pre_pass(case, stats):
+    """Either language reads what the other wrote only if both write the documented bytes: for many more cases than
+    can be compiled in C++, the Python codec's bytes are compared with the canonical ones (a difference is then also
+    handed to the C++ decoder by the campaign, where that case is drawn)."""
+    from vlib import pyh
+    from vlib.refwire import RefWire
+    schema, cases = case
+    rw = RefWire(schema)
+    try:
+        codec = pyh.PyCodec(schema)
+    except Exception:
+        return
+    for tname, val in cases:
+        for e in '<>':
+            try:
+                pb = codec.build(tname, val).encode(e)
+            except Exception:
+                continue        # C01's business
+            canon = rw.encode(tname, val, e)[0]
+            stats.notes['python_pre_pass'] += 1
+            if pb != canon:
+                fid = common.classify_known(ID, schema, rw, tname, val, ('python bytes differ', {}))
+                if fid:
+                    continue
+                raise runner.Violation("the Python codec writes other bytes than the documented format that the C++ codec "
+                                       "reads (%s, byte order %s)" % (tname, e),
+                                       common.case_payload(schema, tname, val, {'python': pb.hex(), 'canonical': canon.hex()}))
+
+
 def worker(widx, seed, tier, stats):
-    CAMPAIGN.worker(widx, seed, tier, stats, {'quick': 2, 'thorough': 40}[tier])
+    from vlib import gen
+    runner.run_given(gen.schema_with_values(CAMPAIGN.gen_opts()), python_pre_pass, seed + 7,
+                     {'quick': 60, 'thorough': 1500}[tier], stats)
+    if not stats.violations:
+        CAMPAIGN.worker(widx, seed, tier, stats, {'quick': 2, 'thorough': 40}[tier])
 
 
 def run(tier, seed):
